@@ -911,6 +911,11 @@ func (env *Zlisp) Apply(fun *SexpFunction, args []Sexp) (Sexp, error) {
 		env.restoreControlState(callState)
 		return SexpNull, err
 	}
+	// put the program counter (set to -2 above so that Run stops when the
+	// function returns) back where it was: a host that calls Apply on an idle
+	// interpreter would otherwise leave it at -1, and every later evaluation
+	// would run no instruction at all and return nil.
+	env.restoreControlState(callState)
 	return res, nil
 }
 
